@@ -6,96 +6,60 @@ Import ListNotations.
 Require Import PV.Gen.FormatRe PV.Format.Percent PV.Format.StrFormat.
 Open Scope N_scope.
 
-Definition loop_errs (fs : list field) (nargs : N) (kw : list (list N)) (cur : N) : list ferr :=
-  fst (fst (pa_field_loop fs nargs kw cur)).
+Definition loop_errs (fs : list field) (nargs : N) (kw : list (list N)) (st : anstate) (cur : N) : list ferr :=
+  fst (fst (pa_field_loop fs nargs kw st cur)).
 
-Lemma loop_errs_cons : forall fd fs nargs kw cur,
-  loop_errs (fd :: fs) nargs kw cur =
+Lemma loop_errs_cons : forall fd fs nargs kw st cur,
+  loop_errs (fd :: fs) nargs kw st cur =
   match f_name fd with
-  | ANone => (if nargs <=? cur then [FTooFew] else []) ++ loop_errs fs nargs kw (cur + 1)
-  | ANum i => (if nargs <=? i then [FOutOfRange] else []) ++ loop_errs fs nargs kw cur
-  | AName s => (if name_in s kw then [] else [FNotGiven]) ++ loop_errs fs nargs kw cur
+  | ANone => (match st with AManual => [FMix] | _ => [] end)
+             ++ (if nargs <=? cur then [FTooFew] else []) ++ loop_errs fs nargs kw AAuto (cur + 1)
+  | ANum i => (match st with AAuto => [FMix] | _ => [] end)
+              ++ (if nargs <=? i then [FOutOfRange] else []) ++ loop_errs fs nargs kw AManual cur
+  | AName s => (if name_in s kw then [] else [FNotGiven]) ++ loop_errs fs nargs kw st cur
   end.
 Proof.
-  intros fd fs nargs kw cur. unfold loop_errs. simpl.
+  intros fd fs nargs kw st cur. unfold loop_errs. simpl.
   destruct (f_name fd) as [|i|s].
-  - destruct (pa_field_loop fs nargs kw (cur + 1)) as [[e ui] uk]. reflexivity.
-  - destruct (pa_field_loop fs nargs kw cur) as [[e ui] uk]. reflexivity.
-  - destruct (pa_field_loop fs nargs kw cur) as [[e ui] uk]. reflexivity.
+  - destruct (pa_field_loop fs nargs kw AAuto (cur + 1)) as [[e ui] uk]. reflexivity.
+  - destruct (pa_field_loop fs nargs kw AManual cur) as [[e ui] uk]. reflexivity.
+  - destruct (pa_field_loop fs nargs kw st cur) as [[e ui] uk]. reflexivity.
 Qed.
 
 Lemma nonempty_app : forall {A} (a b : list A), nonempty (a ++ b) = nonempty a || nonempty b.
 Proof. intros A [|x a] b; reflexivity. Qed.
 
-(* an error of the loop: CPython raises, whatever the numbering state *)
-Lemma loop_err_raises : forall fs nargs kw cur st,
-  nonempty (loop_errs fs nargs kw cur) = true -> py_fields_raise fs nargs kw st cur = true.
+(* the field loop and CPython's numbering + lookup agree exactly, in every
+   numbering state: an error of the loop  <->  CPython raises *)
+Lemma loop_err_iff_raises : forall fs nargs kw st cur,
+  nonempty (loop_errs fs nargs kw st cur) = py_fields_raise fs nargs kw st cur.
 Proof.
-  induction fs as [|fd fs IH]; intros nargs kw cur st H.
-  - discriminate.
-  - rewrite loop_errs_cons in H. simpl. destruct (f_name fd) as [|i|s];
-      rewrite nonempty_app in H; apply orb_true_iff in H.
-    + destruct st; try reflexivity;
-        (destruct (nargs <=? cur); [reflexivity|]; simpl; destruct H as [H|H]; [discriminate|apply IH; exact H]).
-    + destruct st; try reflexivity;
-        (destruct (nargs <=? i); [reflexivity|]; simpl; destruct H as [H|H]; [discriminate|apply IH; exact H]).
-    + destruct (name_in s kw); simpl; [|reflexivity]. destruct H as [H|H]; [discriminate|apply IH; exact H].
-Qed.
-
-(* numbering state compatible with the remaining fields: no switch ahead *)
-Definition compat (st : anstate) (fs : list field) : bool :=
-  match st with
-  | AInit => negb (mix_clause fs)
-  | AAuto => negb (existsb is_numbered fs)
-  | AManual => negb (existsb is_auto fs)
-  end.
-
-Lemma raises_loop_err : forall fs nargs kw cur st,
-  compat st fs = true -> py_fields_raise fs nargs kw st cur = true ->
-  nonempty (loop_errs fs nargs kw cur) = true.
-Proof.
-  induction fs as [|fd fs IH]; intros nargs kw cur st Hc H.
-  - discriminate.
-  - rewrite loop_errs_cons. destruct fd as [nm pth cv hs]. simpl in H. simpl f_name.
-    unfold compat, mix_clause in Hc. simpl in Hc. unfold is_auto, is_numbered in Hc. simpl in Hc.
-    fold is_auto in Hc. fold is_numbered in Hc.
-    destruct nm as [|i|s]; rewrite nonempty_app; simpl in Hc.
-    + (* automatic field *)
-      destruct (nargs <=? cur); [reflexivity|]. simpl.
-      destruct st; simpl in Hc; try discriminate; simpl in H.
-      * apply (IH nargs kw (cur + 1) AAuto); [|exact H]. unfold compat. exact Hc.
-      * apply (IH nargs kw (cur + 1) AAuto); [|exact H]. unfold compat. exact Hc.
-    + destruct (nargs <=? i); [reflexivity|]. simpl.
-      destruct st; simpl in Hc; try discriminate; simpl in H.
-      * apply (IH nargs kw cur AManual); [|exact H]. unfold compat.
-        rewrite andb_true_r in Hc. exact Hc.
-      * apply (IH nargs kw cur AManual); [|exact H]. unfold compat. exact Hc.
-    + destruct (name_in s kw); [|reflexivity]. simpl in *.
-      apply (IH nargs kw cur st); [|exact H].
-      destruct st; unfold compat, mix_clause; exact Hc.
+  induction fs as [|fd fs IH]; intros nargs kw st cur; [reflexivity|].
+  rewrite loop_errs_cons. simpl. destruct (f_name fd) as [|i|s].
+  - destruct st; try reflexivity; simpl; rewrite nonempty_app, IH; destruct (nargs <=? cur); reflexivity.
+  - destruct st; try reflexivity; simpl; rewrite nonempty_app, IH; destruct (nargs <=? i); reflexivity.
+  - rewrite nonempty_app, IH. destruct (name_in s kw); reflexivity.
 Qed.
 
 Lemma check_split : forall fs nargs kw, exists unused,
-  pa_fields_check fs nargs kw = loop_errs fs nargs kw 0 ++ unused /\ forallb is_unused unused = true.
+  pa_fields_check fs nargs kw = loop_errs fs nargs kw AInit 0 ++ unused /\ forallb is_unused unused = true.
 Proof.
   intros fs nargs kw. unfold pa_fields_check, loop_errs.
-  destruct (pa_field_loop fs nargs kw 0) as [[e ui] uk]. simpl.
+  destruct (pa_field_loop fs nargs kw AInit 0) as [[e ui] uk]. simpl.
   eexists. split; [reflexivity|].
   destruct (forallb (fun i => mem i ui) (range_N (N.to_nat nargs)));
     destruct (forallb (fun s => name_in s uk) kw); reflexivity.
 Qed.
 
-(* CPython raises (numbering switch, IndexError, KeyError) ==> reported, unless
-   the template mixes automatic and manual numbering *)
+(* CPython raises (numbering switch, IndexError, KeyError)  ==>  reported; no guard
+   (the mixed-numbering class was repaired in _str_format_impl) *)
 Theorem format_raise_reported : forall fs nargs kw,
-  mix_clause fs = false ->
   py_fields_raise fs nargs kw AInit 0 = true ->
   nonempty (pa_fields_check fs nargs kw) = true.
 Proof.
-  intros fs nargs kw Hm H.
+  intros fs nargs kw H.
   destruct (check_split fs nargs kw) as [u [Heq _]]. rewrite Heq, nonempty_app.
-  rewrite (raises_loop_err fs nargs kw 0 AInit); [reflexivity| |exact H].
-  unfold compat. rewrite Hm. reflexivity.
+  rewrite loop_err_iff_raises, H. reflexivity.
 Qed.
 
 (* reported ==> CPython raises, or every report is "argument(s) were not used" *)
@@ -105,29 +69,20 @@ Theorem format_report_sound : forall fs nargs kw,
 Proof.
   intros fs nargs kw H.
   destruct (check_split fs nargs kw) as [u [Heq Hu]].
-  destruct (nonempty (loop_errs fs nargs kw 0)) eqn:E.
-  - left. apply loop_err_raises. exact E.
-  - right. rewrite Heq. destruct (loop_errs fs nargs kw 0); [exact Hu|discriminate].
+  destruct (nonempty (loop_errs fs nargs kw AInit 0)) eqn:E.
+  - left. rewrite <- loop_err_iff_raises. exact E.
+  - right. rewrite Heq. destruct (loop_errs fs nargs kw AInit 0); [exact Hu|discriminate].
 Qed.
 
-Definition format_raise_reported_full_statement : Prop :=
-  forall fs nargs kw, py_fields_raise fs nargs kw AInit 0 = true -> nonempty (pa_fields_check fs nargs kw) = true.
-
-(* "{} {0}".format(1) *)
+(* "{} {0}".format(1): ValueError in CPython, now reported *)
 Lemma format_mix_witness :
   let fs := [mk_field ANone [] None false; mk_field (ANum 0) [] None false] in
-  py_fields_raise fs 1 [] AInit 0 = true /\ pa_fields_check fs 1 [] = [] /\ mix_clause fs = true.
+  py_fields_raise fs 1 [] AInit 0 = true /\ pa_fields_check fs 1 [] = [FMix] /\ mix_clause fs = true.
 Proof. repeat split; vm_compute; reflexivity. Qed.
-
-Lemma format_raise_reported_refuted : ~ format_raise_reported_full_statement.
-Proof.
-  intros H. destruct format_mix_witness as [H1 [H2 _]].
-  specialize (H _ _ _ H1). rewrite H2 in H. discriminate.
-Qed.
 
 (* parsing real templates: "{0!r:>{w}} {name}" and the parse errors *)
 Example format_examples :
-  pa_format_check [123; 125; 32; 123; 48; 125] 1 [] = Some (RFields []) /\          (* "{} {0}" : silent *)
+  pa_format_check [123; 125; 32; 123; 48; 125] 1 [] = Some (RFields [FMix]) /\      (* "{} {0}" : numbering switch *)
   py_format_verdict [123; 125; 32; 123; 48; 125] 1 [] = VRaises /\
   pa_format_check [123; 48; 125; 123; 49; 125] 1 [] = Some (RFields [FOutOfRange]) /\  (* "{0}{1}".format(x) *)
   py_format_verdict [123; 48; 125; 123; 49; 125] 1 [] = VRaises /\
@@ -144,12 +99,12 @@ Definition py_format_result_is_str : bool := true.
 
 (* ---------------------------------------------------------------- templates as characters *)
 (* both the field loop and CPython's lookup look at the argument names only *)
-Lemma field_loop_names : forall fs fs' nargs kw cur,
-  map f_name fs = map f_name fs' -> pa_field_loop fs nargs kw cur = pa_field_loop fs' nargs kw cur.
+Lemma field_loop_names : forall fs fs' nargs kw st cur,
+  map f_name fs = map f_name fs' -> pa_field_loop fs nargs kw st cur = pa_field_loop fs' nargs kw st cur.
 Proof.
-  induction fs as [|fd fs IH]; intros [|fd' fs'] nargs kw cur H; try discriminate; [reflexivity|].
+  induction fs as [|fd fs IH]; intros [|fd' fs'] nargs kw st cur H; try discriminate; [reflexivity|].
   simpl in H. injection H as Hn Ht. simpl. rewrite <- Hn.
-  destruct (f_name fd); rewrite (IH fs' nargs kw _ Ht); reflexivity.
+  destruct (f_name fd); rewrite (IH fs' nargs kw _ _ Ht); reflexivity.
 Qed.
 
 Lemma fields_check_names : forall fs fs' nargs kw,
@@ -179,14 +134,13 @@ Qed.
    numbering/lookup raises ==> _str_format_impl shows an error *)
 Theorem format_chars_raise_reported : forall t nargs kw fs fs',
   pa_parse t = Some (fs, []) -> py_parse t = PYOk fs' -> map f_name fs = map f_name fs' ->
-  mix_clause fs' = false ->
   py_fields_raise fs' nargs kw AInit 0 = true ->
   option_map freport_reports (pa_format_check t nargs kw) = Some true.
 Proof.
-  intros t nargs kw fs fs' Hpa Hpy Hn Hm Hr.
+  intros t nargs kw fs fs' Hpa Hpy Hn Hr.
   unfold pa_format_check. rewrite Hpa. simpl.
   rewrite (fields_check_names fs fs' nargs kw Hn).
-  rewrite (format_raise_reported fs' nargs kw Hm Hr). reflexivity.
+  rewrite (format_raise_reported fs' nargs kw Hr). reflexivity.
 Qed.
 
 Theorem format_chars_report_sound : forall t nargs kw fs fs' l,
